@@ -91,6 +91,14 @@ public:
       specifier_begin = search_qns;
     }
 
+    if ((specifier_begin != std::string::npos) &&
+        (_time_format.find(specifier_name[_additional_format_specifier], specifier_begin + specifier_length) !=
+         std::string::npos))
+    {
+      // the same specifier more than once is not supported either
+      QUILL_THROW(QuillError{"format specifiers %Qms, %Qus and %Qns can only be used once"});
+    }
+
     if (specifier_begin == std::string::npos)
     {
       // If no additional specifier was found then we can simply store the whole format string
